@@ -65,3 +65,23 @@ Proof.
   - apply ginv_step; assumption.
   - apply (alloc_vm_fail c st size Hc IH).
 Qed.
+
+(* the main safety facts over histories with virtual-memory failures *)
+Theorem reach_vm_sound c st : cfg_ok c -> reach_vm c st ->
+  (forall b1 b2 sp1 sp2, In b1 (blocks st) -> In b2 (blocks st) -> In sp1 (b_live b1) -> In sp2 (b_live b2) ->
+     (b_id b1 = b_id b2 -> b1 = b2) /\
+     (1 <= snd sp1 /\ b_pad b1 <= fst sp1 /\ fst sp1 + snd sp1 <= b_area b1) /\
+     (b1 = b2 -> forall i, in_span sp1 i -> in_span sp2 i -> sp1 = sp2)) /\
+  (forall b, In b (blocks st) -> b_aused b < b_area b ->
+     forall i, 0 <= i < b_area b -> Z.testbit (b_used b) i = false -> b_ss b <= i < b_se b) /\
+  acount st = total_live (blocks st).
+Proof.
+  intros Hc R. pose proof (reach_vm_ginv c st Hc R) as [GB GI _ _ GC _]. rewrite Forall_forall in GB.
+  split; [|split].
+  - intros b1 b2 sp1 sp2 H1 H2 L1 L2. destruct (GB b1 H1) as ([S1 _] & _). split; [|split].
+    + intros E. apply (nodup_ids_inj (blocks st)); assumption.
+    + apply (bs_spans b1 S1 sp1 L1).
+    + intros <- i I1 I2. apply (bs_disj b1 S1 sp1 sp2 i); assumption.
+  - intros b Hb. destruct (GB b Hb) as ([_ C] & _). apply (bc_window b C).
+  - assumption.
+Qed.
